@@ -224,6 +224,78 @@ def lit_of(rng, v):
     return None
 
 
+SIMILAR = {True: [1, 1.0, "true"], False: [0, 0.0, "", None], None: [0, False, "", "null", [], {}], 0: [False, 0.0, "0", None],
+           1: [True, 1.0, "1"], 0.0: [0, False], 1.0: [1, True], "": [None, False, 0, []], "a": ["A", "a ", ["a"]], "1": [1, 1.0, True]}
+
+
+def near_copy(rng, v):
+    """a deep copy of v with exactly one small edit somewhere"""
+    import copy
+
+    w = copy.deepcopy(v)
+    paths = []
+
+    def walk(x, path):
+        paths.append(path)
+        if isinstance(x, list):
+            for i, y in enumerate(x):
+                walk(y, path + [i])
+        elif isinstance(x, dict):
+            for k, y in x.items():
+                walk(y, path + [k])
+
+    walk(w, [])
+    path = rng.choice(paths)
+
+    def edit(x):
+        k = rng.random()
+        if isinstance(x, dict) and x and k < 0.7:
+            key = rng.choice(list(x.keys()))
+            r = rng.random()
+            if r < 0.35:  # rename a member, value kept
+                items = [(("z" + kk) if kk == key else kk, vv) for kk, vv in x.items()]
+                return dict(items)
+            if r < 0.5:  # drop a member
+                return {kk: vv for kk, vv in x.items() if kk != key}
+            if r < 0.65:  # reorder
+                items = list(x.items())
+                rng.shuffle(items)
+                return dict(items)
+            if r < 0.8:  # add a null member
+                y = dict(x)
+                y["n"] = None
+                return y
+            y = dict(x)
+            y[key] = edit(x[key])
+            return y
+        if isinstance(x, list) and x and k < 0.7:
+            i = rng.randrange(len(x))
+            r = rng.random()
+            if r < 0.3:
+                return x[:i] + x[i + 1 :]
+            if r < 0.5:
+                return x + [None]
+            if r < 0.6 and len(x) > 1:
+                y = list(x)
+                y[0], y[-1] = y[-1], y[0]
+                return y
+            return x[:i] + [edit(x[i])] + x[i + 1 :]
+        if isinstance(x, (dict, list)):
+            return rng.choice([None, [] if isinstance(x, dict) else {}, [x], {"a": x}])
+        for key, alts in SIMILAR.items():
+            if type(key) is type(x) and key == x:
+                return rng.choice(alts)
+        return rng.choice([None, True, 0, "", x])
+
+    if not path:
+        return edit(w)
+    cur = w
+    for k in path[:-1]:
+        cur = cur[k]
+    cur[path[-1]] = edit(cur[path[-1]])
+    return w
+
+
 def explore_c06(rng, tier, res, deep=False):
     res.rule = (
         "ordered pairs from a kind-complete pool (every JSON kind, equal int/float pairs, -0.0, ints beyond 2^53, "
@@ -262,6 +334,17 @@ def explore_c06(rng, tier, res, deep=False):
 
                 q = f"$.rows[?{side('a', a)} {op} {side('b', b)}]"
                 cases.append((q, doc))
+    # near-miss pairs: a random value against a copy that differs by ONE small edit (a renamed member, a leaf of
+    # another kind with a "similar" value, a reordered object, an equal int/float, a dropped element, null vs missing)
+    npairs = 4000 if tier == "thorough" else (900 if deep else 350)
+    for _ in range(npairs):
+        a = gen.gen_doc(rng, depth=rng.choice([1, 2, 3]), width=3, names=["a", "b", "c"],
+                        scalars=[None, True, False, 0, 1, 2, 0.0, 1.0, 1.5, "", "a", "1", [], {}])
+        b = near_copy(rng, a)
+        op = rng.choice(OPS)
+        cases.append((f"$[?@.a {op} @.b]", [{"a": a, "b": b}]))
+        if rng.random() < 0.3:
+            cases.append((f"$[?@.b {op} @.a]", [{"a": a, "b": b}]))
     sweep(res, PROBE_ENV, cases, "C06", check_ast_iter=(tier != "thorough"), expect_valid=True)
 
 
